@@ -3,6 +3,7 @@ CONSTANTS
   MaxDepth = 1
   Slice = 0
   NSlices = 8
+  SeqMode = FALSE
   FoldTable <- MCFoldTable
   TrimTable <- MCTrimTable
   HintRank <- MCHintRank
